@@ -118,6 +118,39 @@ def main(n, seed):
                 if problem:
                     fails.append({"allowed": allowed, "ancestor": sorted(map(str, anc)), "ours": {str(k): str(v[1].value)[:1] + ("x" if v[0].isexec else "") for k, v in ours.items()},
                                   "theirs": {str(k): str(v[1].value)[:1] + ("x" if v[0].isexec else "") for k, v in theirs.items()}, "problem": problem} if len(fails) < 5 else None)
+        # listings that hold an entry WITHOUT a hash (relpath only, as a partially hashed workspace leaves it): merge() must neither
+        # drop it nor give the result an identifier other than the canonical one of the merged listing
+        evals += 1
+        nh = (Meta(size=3), HashInfo())
+        v1, v2 = vals[1], vals[2]
+        anc_, ours_, theirs_ = {("keep",): nh, ("a",): v1}, {("keep",): nh, ("a",): v1, ("b",): v2}, {("keep",): nh, ("a",): v1, ("d", "c"): v1}
+        try:
+            got = merge(odb, store(odb, anc_).hash_info, store(odb, ours_).hash_info, store(odb, theirs_).hash_info)
+            want_ = {("keep",): nh, ("a",): v1, ("b",): v2, ("d", "c"): v1}
+            if {k: (h.value if h else None) for k, m, h in got} != {k: (v[1].value if v[1] else None) for k, v in want_.items()}:
+                fails.append({"allowed": None, "problem": f"merge(): a listing with a hash-less entry lost or changed entries: {sorted(k for k, _, _ in got)}"})
+            elif got.hash_info != store(odb, {k: (None, v[1]) for k, v in want_.items()}).hash_info:
+                fails.append({"allowed": None, "problem": "merge(): listing with a hash-less entry does not carry its canonical identifier"})
+        except Exception as e:  # noqa: BLE001
+            fails.append({"allowed": None, "problem": f"merge() of listings with a hash-less entry raised {type(e).__name__}: {e}"})
+    # a side that only RE-LABELS an entry's algorithm (legacy md5-dos2unix -> md5, same digest) has changed that entry: compared here by
+    # (name, value) pairs, independently of how the library defines equality of its records
+    evals += 1
+    lab = lambda d: {k: (v[1].name, v[1].value) for k, v in d.items()}  # noqa: E731
+    old_l, new_l, other = (None, HashInfo("md5-dos2unix", "1" * 32)), (None, HashInfo("md5", "1" * 32)), (None, HashInfo("md5", "2" * 32))
+    try:
+        got = _merge({("a",): old_l}, {("a",): new_l}, {("a",): old_l, ("b",): other}, allowed=["add", "remove", "change"])
+        if lab(got) != {("a",): ("md5", "1" * 32), ("b",): ("md5", "2" * 32)}:
+            fails.append({"allowed": "all", "problem": f"_merge lost a re-labelled entry (ours changed only the algorithm name): {lab(got)}"})
+    except Exception as e:  # noqa: BLE001
+        fails.append({"allowed": "all", "problem": f"_merge of a re-labelled entry raised {type(e).__name__}: {e}"})
+    try:
+        got = _merge({("a",): old_l}, {("a",): new_l}, {("a",): other}, allowed=["add", "remove", "change"])
+        fails.append({"allowed": "all", "problem": f"_merge accepted two different changes of one entry (re-label vs rewrite) silently: {lab(got)}"})
+    except MergeError:
+        pass
+    except Exception as e:  # noqa: BLE001
+        fails.append({"allowed": "all", "problem": f"conflicting changes raised {type(e).__name__} instead of a merge error"})
     for allowed in (None, ["add"], ["add", "remove"], ["add", "remove", "change"]):
         eff = set(allowed or ["add"])
         for anc, ours, theirs in triples:
@@ -150,7 +183,7 @@ def main(n, seed):
                 fails.append(None)
     nf = len(fails)
     return {"evaluations": evals, "distinct_nontrivial": evals, "failures": [f for f in fails if f][:3], "n_failures": nf,
-            "exhaustive_within_bound": not (n and n < len(dicts) ** 3), "bound": "3-key universe (incl. a nested key), values {absent, v1, v2, v1-with-other-metadata}, 4 policies; merge() through a store on every 40th triple, also with the ancestor listing missing from the store and with 'ours' derived from the loaded ancestor object"}
+            "exhaustive_within_bound": not (n and n < len(dicts) ** 3), "bound": "3-key universe (incl. a nested key), values {absent, v1, v2, v1-with-other-metadata}, 4 policies; merge() through a store on every 40th triple, also with the ancestor listing missing from the store and with 'ours' derived from the loaded ancestor object; one triple of listings holding a hash-less entry; a re-labelled entry (same digest, other algorithm name)"}
 
 
 if __name__ == "__main__":
